@@ -196,12 +196,18 @@ class _Gen:
                 else:
                     self.r.choice(["up", "up", "down"])      # (keeps the random stream aligned)
                     loop = first_dir
-                if loop == "up":
+                iexpr = "i"
+                if loop == "up" and r.random() < 0.15:
+                    # an @inner loop that starts at 1: work item k runs i = k + 1
+                    out += ind + "  for (int i = 1; i < %d; ++i; @inner) {\n" % (I + 1)
+                    self.features.add("inner-start-nonzero")
+                    iexpr = "(i - 1)"
+                elif loop == "up":
                     out += ind + "  for (int i = 0; i < %d; ++i; @inner) {\n" % I
                 else:
                     out += ind + "  for (int i = %d; i >= 0; --i; @inner) {\n" % (I - 1)
                     self.features.add("down-inner")
-                iexpr, pad = "i", ind + "    "
+                pad = ind + "    "
             g = "(%s + %s)" % (base, iexpr)
             out += pad + "const int g = %s;\n" % g
             out += self.stmts(phases, ph, "g", use_shared, use_excl, use_excl_ptr, iexpr, pad)
@@ -338,12 +344,14 @@ def reference(src):
             down_from = int(mdown.group(1))
         elif re.match(r"\s*for \(int i = 0; i < \d+; \+\+i\)", l):
             down_from = None
+        elif re.match(r"\s*for \(int i = 1; i < \d+; \+\+i\)", l):
+            down_from = "from1"
         m = re.match(r"\s*const int g = (.*);", l)
         if m:
             if "(ia * 2 + ib)" in l:
                 iexpr = "(ia * 2 + ib)"
             else:
-                iexpr = "i" if down_from is None else "(%d - i)" % down_from
+                iexpr = "i" if down_from is None else ("(i - 1)" if down_from == "from1" else "(%d - i)" % down_from)
         l = re.sub(r"@shared int s\[(\d+)\];", r"int s[\1];", l)
         if "@exclusive int e;" in l:
             l = l.replace("@exclusive int e;", "int e[64];")
